@@ -80,7 +80,7 @@ JaPlFails(e) ==
       sized == n \in {12, 28}
       acc == e.derr = ""
       sd == DecodeJoinAccept(e.bytes)
-      exp == [sd EXCEPT !.rxdelay = sd.rxdelay % 16]
+      exp == sd
       got == [k \in DOMAIN exp |-> e.val[k]]
   IN  (IF OkErr(e.derr) /\ e.intact /\ (~acc \/ OkErr(e.rerr)) THEN <<>> ELSE <<"C09.total">>)
    \o (IF sized # acc THEN <<"C06.joinaccept">>
